@@ -6,6 +6,7 @@
     Proofs/C04Faults.lean     histories with a storage fault at any storage call of any exchange
     Proofs/C04Concurrent.lean two exchanges served concurrently: which storage contract single use rests on
     Proofs/C04Parse.lean      request parsing on both routers: the regenerated handlers ARE the history model's skeleton
+    Proofs/C04RO.lean         round 4c: requests with a signed request object: the stored challenge is the effective one (C19.copy_char composed with the exchange theorem)
     Proofs/C04ConcurrentWire.lean  deep4: the lookup step of the concurrent model IS the regenerated handler on its own raw request
 -/
 import OidcModel.Proofs.C04History
@@ -15,3 +16,4 @@ import OidcModel.Proofs.C04Concurrent
 import OidcModel.Proofs.C04Parse
 import OidcModel.Proofs.C04ConcurrentWire
 import OidcModel.Proofs.C04SC
+import OidcModel.Proofs.C04RO
